@@ -1242,6 +1242,9 @@ impl Opcode for SelfDestruct {
         // we would lose info
         vm.state()?.record_value(destroy);
 
+        // The contract ceases to execute at this point, so this path ends here
+        vm.kill_current_thread();
+
         // Done, so return ok
         Ok(())
     }
